@@ -926,7 +926,6 @@ def run(rep, ctx):
     rep.rule("R01.11", "localisation removes a shared atom from all but exactly one of its clusters")
     rep.rule("R01.12", "index collections of new clusters are sets (duplicate-free)")
     rep.rule("R01.13", "distances and region search run on the wrapped working copy")
-    rep.rule("R01.14", "atoms outside the cell along a non-periodic direction always trigger enlargement and centring")
     with rep.guard("R01.1"):
         r01_1(rep, M, E, "R01.1")
         r01_1_escape(rep, M, E, "R01.1")
@@ -956,8 +955,6 @@ def run(rep, ctx):
         r01_12(rep, M, "R01.12")
     with rep.guard("R01.13"):
         r01_13(rep, M, "R01.13")
-    with rep.guard("R01.14"):
-        r01_14(rep, M, "R01.14")
     rep.rule("R01.15", "every exception handler on the paths of get_clusters is a confirmed one (nothing swallows or converts failures)")
     with rep.guard("R01.15"):
         from .. import handlers
@@ -971,7 +968,6 @@ def run(rep, ctx):
         _sh.distances(rep, ctx.model, "R01.16")
         _sh.radii(rep, ctx.model, "R01.16")
     rep.floor("R01.15", 8)
-    rep.floor("R01.14", 2)
     rep.floor("R01.11", 2)
     rep.floor("R01.12", 2)
     rep.floor("R01.13", 2)
